@@ -49,8 +49,8 @@ Definition obs_of_gres (r : gres) : list field :=
 Definition obs_match (api : Z) (declared : Z) (last_is_index : bool) (exp : list field) (st ty s e : Z) : bool :=
   match exp with
   | [FZ 0; FZ t; FZ a; FZ b] => (st =? 0) && (ty =? t) && (s =? a) && (e =? b)
-  | [FZ 1] => (st =? 1) || ((api =? 4) && last_is_index && (st =? 2))
-              || (((api =? 2) || (api =? 3)) && (declared =? 0) && (st =? 2))   (* typed access, field not in the descriptor *)
+  | [FZ 1] => (st =? 1) || (((api =? 4) || (api =? 5)) && last_is_index && (st =? 2))
+              || (((api =? 2) || (api =? 3) || (api =? 5)) && (declared =? 0) && (st =? 2))   (* typed access, field not in the descriptor *)
   | [FZ 2] => (st =? 1) || (st =? 2)
   | _ => false
   end.
@@ -59,7 +59,8 @@ Definition last_index (p : list pstep) : bool :=
   match rev p with PIndex _ :: _ => true | _ => false end.
 
 (* 101: fields = root type, bytes, path, api, declared (all field steps are in the IDL), status, type, start, end
-   api 1 = Node.GetByPath, 2 = Value.GetByPath by ids, 3 = Value.GetByPath by names, 4 = single-step API on the parent node *)
+   api 1 = Node.GetByPath, 2 = Value.GetByPath by ids, 3 = Value.GetByPath by names, 4 = single-step API on the parent node,
+   5 = single-step API on the parent VALUE (typed) *)
 Definition check_101 (fs : list field) : verdict :=
   match fs with
   | FZ t :: FB bs :: rest =>
